@@ -367,6 +367,20 @@ fn eval_text(rt: &mut Rt, text: &str, fmt: &str) -> Eval {
     ev
 }
 
+fn eval_out_of_range(rt: &mut Rt, text: &str, fmt: &str) -> Eval {
+    let mut ev = Eval::pass(true).class("out-of-range-integer");
+    rt.koto.exports_mut().clear();
+    rt.koto.prelude().insert("input", KValue::Str(text.into()));
+    let src = PARSE_AND_BACK.replace("FMT", fmt);
+    let _ = kx::run_on(&mut rt.koto, &src, &RunOpts::default());
+    rt.cap.take();
+    if matches!(rt.koto.exports().get("ok"), Some(KValue::Bool(true))) {
+        let got = rt.koto.exports().get("r").and_then(|v| from_kvalue(&v));
+        ev.fail = Some(Fail::new(format!("c20:{fmt}:out-of-range-integer-accepted"), format!("{fmt}.from_string accepted {text:?} (an integer beyond i64) as {:?}", got.map(|g| serde_json::to_string(&g).unwrap_or_default()))));
+    }
+    ev
+}
+
 // ---------------------------------------------------------------------------------------------
 // (c) Rust data through serde
 
@@ -566,6 +580,22 @@ fn run_shard(ctx: &mut Ctx) {
             ctx.run_case(&cj, || eval_text(&mut rt, &noise, fmt));
         }
     }
+    // out-of-range integers: documents that hold an integer in (i64::MAX, u64::MAX] anywhere must be rejected
+    if ctx.shard == 0 {
+        for fmt in ["json", "yaml"] {
+            for n in ["9223372036854775808", "9223372036854775809", "12345678901234567890", "18446744073709551614", "18446744073709551615"] {
+                let docs: Vec<String> = if fmt == "json" {
+                    vec![n.to_string(), format!("[{n}]"), format!("{{\"a\": {n}}}"), format!("{{\"a\": [1, {{\"b\": {n}}}]}}"), format!("[1, 2, [3, {n}], 4]")]
+                } else {
+                    vec![n.to_string(), format!("- {n}\n"), format!("a: {n}\n"), format!("a:\n  - 1\n  - b: {n}\n"), format!("- 1\n- - 3\n  - {n}\n")]
+                };
+                for doc in docs {
+                    let cj = json!({"kind": "out-of-range", "format": fmt, "text": doc});
+                    ctx.run_case(&cj, || eval_out_of_range(&mut rt, &doc, fmt));
+                }
+            }
+        }
+    }
     // (c) Rust data
     let strat = choice_stream(200);
     ctx.explore("rust", n / 2, &strat, |cs| json!({"kind": "rust", "choices": cs}), |cs| eval_rust(&gen_outer(&mut Src::new(cs))));
@@ -589,6 +619,7 @@ fn replay(case: &Value) -> Option<Fail> {
             eval_tree(&mut rt, &t, case["format"].as_str()?).1.fail
         }
         "text" => eval_text(&mut rt, case["text"].as_str()?, case["format"].as_str()?).fail,
+        "out-of-range" => eval_out_of_range(&mut rt, case["text"].as_str()?, case["format"].as_str()?).fail,
         "rust" => {
             let cs: Vec<u32> = serde_json::from_value(case["choices"].clone()).ok()?;
             eval_rust(&gen_outer(&mut Src::new(&cs))).fail
